@@ -2,7 +2,7 @@
    safe_remove in the store as it is at that moment (whatever concurrent writers have added, whatever
    earlier deletes failed, wherever the compactor dies), hence reads at every revision >= R are those
    of the store the pass never touched. *)
-From KB Require Import Base.Cases Model.Coder Model.CompactSys Proofs.Coder Proofs.CompactSafe.
+From KB Require Import Base.Cases Model.Coder Model.CompactSys Model.C07Cases Proofs.Coder Proofs.CompactSafe Proofs.CompactReads Proofs.CompactWf.
 From Coq Require Import Sorted.
 Local Open Scope N_scope.
 
@@ -319,6 +319,39 @@ Proof.
     + left; exact E.
 Qed.
 
+(* without concurrent writers the store also stays (relaxed-)well-formed *)
+Definition winv (d : dst) : Prop := adds_of d = [] /\ wfd (d_store d).
+
+Lemma memb_In x V : memb x V = true -> In x V.
+Proof.
+  unfold memb. rewrite existsb_exists. intros (y & Hy & E).
+  assert (x = y); [|subst; exact Hy].
+  destruct x as [k r d|k r v], y as [k' r' d'|k' r' v']; cbn [rec_eqb] in E; try discriminate.
+  - apply andb_true_iff in E as [E E3]. apply andb_true_iff in E as [E1 E2].
+    apply beqb_eq in E1. apply N.eqb_eq in E2. apply Bool.eqb_prop in E3. congruence.
+  - apply andb_true_iff in E as [E E3]. apply andb_true_iff in E as [E1 E2].
+    apply beqb_eq in E1. apply N.eqb_eq in E2. apply beqb_eq in E3. congruence.
+Qed.
+
+Lemma ed_winv R kind x d :
+  winv d ->
+  (d_dead d = false -> skipped (d_lf d) (rkey x) = false -> premise R (d_store d) x) ->
+  (forall k r dd, x = RIdx k r dd -> dd = true /\ kind = KDelCur) ->
+  winv (engine_delete R kind x d).
+Proof.
+  intros [Ha Hw] Hp Hx.
+  destruct (ed_cases R kind x d) as [[E _]|(Ed & Esk & adds & o & rest & o' & Hq & Eg & Eo & Et & Hres)];
+    cbv zeta in *; [rewrite E; split; assumption|].
+  assert (Hadds : adds = [] /\ flat_map fst rest = []).
+  { destruct Hq as [(_ & -> & _ & ->)|Eq]; [auto|]. unfold adds_of in Ha. rewrite Eq in Ha. cbn [flat_map fst] in Ha.
+    apply app_eq_nil in Ha. exact Ha. }
+  destruct Hadds as [-> Hrest]. cbn [apply_env] in *.
+  split; [unfold adds_of; rewrite Eo; exact Hrest|].
+  destruct Hres as [(_ & E & _ & _ & Hm)|[(_ & _ & E & _)|[(_ & E & _)|(_ & E & _)]]]; rewrite E; try exact Hw.
+  apply (wfd_del R); [exact Hw|apply Hp; assumption|].
+  intros k r dd ->. destruct (Hx k r dd eq_refl) as [-> Hk]. split; [reflexivity|]. apply memb_In. apply Hm. exact Hk.
+Qed.
+
 (* ---------- order of the snapshot ---------- *)
 
 Definition rlt (a b : rec) : Prop := rec_cmp a b = Lt.
@@ -419,8 +452,9 @@ Proof.
   apply (di_oc _ _ _ Hd) in Hin as [_ Hin]. lia.
 Qed.
 
-Record linv (R : N) (U : store) (snap done todo : list rec) (s : wst) : Prop := {
+Record linv (Wf : Prop) (R : N) (U : store) (snap done todo : list rec) (s : wst) : Prop := {
   li_d : dinv R U (w_d s);
+  li_w : Wf -> winv (w_d s);
   li_todo : forall y, In y todo -> is_ver y = true -> In y (d_store (w_d s));
   li_low : forall k r v, In (RVer k r v) (d_store (w_d s)) -> r <= R ->
            (exists y, In y snap /\ rkey y = k) -> In (RVer k r v) snap;
@@ -437,7 +471,8 @@ Record evolves (R : N) (U : store) (kx : bytes) (d d' : dst) : Prop := {
   ev_low : forall k r v, In (RVer k r v) (d_store d') -> r <= R -> In (RVer k r v) (d_store d);
   ev_dead : d_dead d' = false -> d_dead d = false;
   ev_lf : d_lf d' = d_lf d \/ d_lf d' = kx;
-  ev_good : good d' -> good d
+  ev_good : good d' -> good d;
+  ev_w : winv d -> winv d'
 }.
 
 Lemma evolves_refl R U kx d : dinv R U d -> evolves R U kx d d.
@@ -446,35 +481,38 @@ Proof. intros H. split; auto. Qed.
 Lemma evolves_ed R U kind x d :
   dinv R U d ->
   (d_dead d = false -> skipped (d_lf d) (rkey x) = false -> forall V1, ext R (d_store d) V1 -> premise R V1 x) ->
+  (forall k r dd, x = RIdx k r dd -> dd = true /\ kind = KDelCur) ->
   evolves R U (rkey x) d (engine_delete R kind x d).
 Proof.
-  intros Hd Hp. split.
+  intros Hd Hp Hx. split.
   - apply ed_inv; assumption.
   - intros k r v. apply ed_low with (U := U); exact Hd.
   - apply ed_dead_mono.
   - apply ed_lf.
   - apply ed_good.
+  - intros Hw. apply ed_winv; [exact Hw| |exact Hx]. intros H1 H2. apply Hp; [exact H1|exact H2|apply ext_refl].
 Qed.
 
 Lemma evolves_trans R U kx d1 d2 d3 : evolves R U kx d1 d2 -> evolves R U kx d2 d3 -> evolves R U kx d1 d3.
 Proof.
-  intros [A1 A2 A3 A4 A5] [B1 B2 B3 B4 B5]. split.
+  intros [A1 A2 A3 A4 A5 A6] [B1 B2 B3 B4 B5 B6]. split.
   - exact B1.
   - intros k r v H Hr. apply A2; [apply B2; assumption|exact Hr].
   - intros H. apply A3. apply B3. exact H.
   - destruct B4 as [E|E]; rewrite E; [exact A4|right; reflexivity].
   - intros H. apply A5. apply B5. exact H.
+  - intros H. apply B6. apply A6. exact H.
 Qed.
 
 (* ---------- one iteration ---------- *)
 
-Lemma step_inv R U snap done x t s :
+Lemma step_inv Wf R U snap done x t s :
   snap = done ++ x :: t -> snap_ok snap ->
-  linv R U snap done (x :: t) s ->
+  linv Wf R U snap done (x :: t) s ->
   good (w_d (wbody (cfg R) x s)) ->
-  linv R U snap (done ++ [x]) t (wbody (cfg R) x s).
+  linv Wf R U snap (done ++ [x]) t (wbody (cfg R) x s).
 Proof.
-  intros Esnap Hok [Hd Htodo Hlow Hprev Hold] G.
+  intros Esnap Hok [Hd Hwf Htodo Hlow Hprev Hold] G.
   destruct (sorted_split done x t) as (Sd & St & Sdt); [rewrite <- Esnap; apply Hok|].
   assert (Hxin : In x snap) by (rewrite Esnap; apply in_app_iff; right; left; reflexivity).
   assert (Hkx : rkey x <> []) by (apply (so_keys _ Hok); exact Hxin).
@@ -502,7 +540,7 @@ Proof.
     apply andb_true_iff in Eb as [Hk Hp]. apply N.ltb_lt in Hp.
     destruct (Hsame Hk Hp) as (vx & Ex & Hlt).
     replace (rkey x) with (rkey (RVer (w_pk s) (w_pr s) (w_pv s))) by (apply beqb_eq in Hk; cbn [rkey]; congruence).
-    apply evolves_ed; [exact Hd|].
+    apply evolves_ed; [exact Hd| |intros ? ? ? E; discriminate E].
     intros _ _ V1 [E1 _]. cbn [premise]. right; left. exists (rrev x), vx. split; [|split; [exact Hlt|exact HR]].
     apply E1. rewrite <- Ex. apply Htodo; [left; reflexivity|rewrite Ex; reflexivity]. }
   (* after A: no older version of x's key is left, unless the key is protected or the compactor is gone *)
@@ -535,8 +573,9 @@ Proof.
   (* step B: x itself, when it is a tombstone *)
   assert (EB : evolves R U (rkey x) dA dB).
   { unfold dB, stepB. destruct (is_tomb (rval x)) eqn:Et; [|apply evolves_refl; apply EA].
-    apply evolves_ed; [apply EA|]. intros Hdead Hsk V1 [E1 E2].
-    destruct x as [k0 r0 d0|k0 r0 v0]; [exact I|]. cbn [premise rkey rrev rval] in *.
+    destruct x as [k0 r0 d0|k0 r0 v0]; [rewrite is_tomb_idx in Et; discriminate|].
+    apply evolves_ed; [apply EA| |intros ? ? ? E; discriminate E]. intros Hdead Hsk V1 [E1 E2].
+    cbn [premise rkey rrev rval] in *.
     apply is_tomb_spec in Et. subst v0. right; right. split; [reflexivity|split; [exact HR|]].
     assert (HxA : In (RVer k0 r0 tombstone) (d_store dA)).
     { unfold dA, stepA. cbn [rkey]. destruct (beqb k0 (w_pk s) && (0 <? w_pr s)) eqn:Eb; [|apply Htodo; [left|]; reflexivity].
@@ -557,7 +596,8 @@ Proof.
   assert (EC : evolves R U (rkey x) dB dC).
   { unfold dC, stepC. destruct x as [k0 orev [|]|k0 r0 v0]; try (apply evolves_refl; apply EB).
     destruct (R <? orev); [apply evolves_refl; apply EB|].
-    apply (evolves_ed R U KDelCur (RIdx k0 orev true)); [apply EB|]. intros _ _ V1 _. exact I. }
+    apply (evolves_ed R U KDelCur (RIdx k0 orev true)); [apply EB|intros _ _ V1 _; exact I|].
+    intros k r dd E. injection E as _ _ <-. split; reflexivity. }
   pose proof (evolves_trans _ _ _ _ _ _ EA (evolves_trans _ _ _ _ _ _ EB EC)) as EAll.
   (* which slots may have been removed *)
   assert (Hkeep : forall y, In y t -> is_ver y = true -> In y (d_store dC)).
@@ -581,6 +621,7 @@ Proof.
     destruct (same_slot _ y) eqn:Es; [|reflexivity]. apply same_slot_idx in Es as (? & ? & ->). discriminate. }
   split.
   - rewrite Ed. apply EAll.
+  - rewrite Ed. intros HW. apply (ev_w _ _ _ _ _ EAll). apply Hwf. exact HW.
   - rewrite Ed. exact Hkeep.
   - rewrite Ed. intros k r v Hin Hr Hex. apply Hlow; [apply (ev_low _ _ _ _ _ EAll); assumption|exact Hr|exact Hex].
   - destruct (advances R x) eqn:Eadv; destruct Eprev as (E1 & E2 & E3); rewrite E1, E2, E3.
@@ -625,14 +666,14 @@ Proof.
   apply (wbody_good R y). apply IHt. exact G.
 Qed.
 
-Lemma wloop_inv R U snap : forall todo done s,
-  snap = done ++ todo -> snap_ok snap -> linv R U snap done todo s ->
+Lemma wloop_inv Wf R U snap : forall todo done s,
+  snap = done ++ todo -> snap_ok snap -> linv Wf R U snap done todo s ->
   good (w_d (wloop (cfg R) todo s)) ->
-  dinv R U (w_d (wloop (cfg R) todo s)).
+  dinv R U (w_d (wloop (cfg R) todo s)) /\ (Wf -> winv (w_d (wloop (cfg R) todo s))).
 Proof.
-  induction todo as [|x t IH]; intros done s Esnap Hok Hl G; cbn [wloop] in *; [apply Hl|].
+  induction todo as [|x t IH]; intros done s Esnap Hok Hl G; cbn [wloop] in *; [split; apply Hl|].
   change (need_more (cfg R) (w_out s)) with true in *. cbn [negb] in *.
-  destruct (d_dead (w_d s)) eqn:Edead; [apply Hl|].
+  destruct (d_dead (w_d s)) eqn:Edead; [split; apply Hl|].
   assert (E2 : snap = (done ++ [x]) ++ t) by (rewrite <- app_assoc; exact Esnap).
   assert (G1 : good (w_d (wbody (cfg R) x s))) by (apply (wloop_good R t); exact G).
   apply (IH (done ++ [x]) _ E2 Hok); [|exact G].
@@ -653,10 +694,12 @@ Definition scan (R : N) (V : store) (snap : list rec) (oc : list (list rec * out
   w_d (wloop (cfg R) snap (init_w (init_d V oc))).
 
 Lemma scan_dinv R V snap oc :
-  scan_ok R V snap oc -> good (scan R V snap oc) -> dinv R (V ++ flat_map fst oc) (scan R V snap oc).
+  scan_ok R V snap oc -> good (scan R V snap oc) ->
+  dinv R (V ++ flat_map fst oc) (scan R V snap oc) /\
+  (wfd V /\ flat_map fst oc = [] -> winv (scan R V snap oc)).
 Proof.
   intros [H1 H2 H3 H4 H5] G. unfold scan in *.
-  apply (wloop_inv R _ snap snap [] _ eq_refl H1); [|exact G].
+  apply (wloop_inv (wfd V /\ flat_map fst oc = []) R _ snap snap [] _ eq_refl H1); [|exact G].
   assert (Hd0 : dinv R (V ++ flat_map fst oc) (init_d V oc)).
   { constructor; cbn [init_d d_store d_ghost d_oc d_trace].
     - apply cinv_refl.
@@ -666,6 +709,7 @@ Proof.
     - constructor. }
   constructor; cbn [init_w w_d w_pr w_pk w_pv].
   - exact Hd0.
+  - intros [Hw Hs]. split; [exact Hs|exact Hw].
   - exact H2.
   - intros k r v Hin _ Hex. apply H3; assumption.
   - lia.
@@ -712,7 +756,7 @@ Theorem scan_safe R V snap oc :
   (forall k r v, In (RVer k r v) V -> In (RVer k r v) (d_ghost (scan R V snap oc))) /\
   (forall k r v, In (RVer k r v) (d_ghost (scan R V snap oc)) -> In (RVer k r v) V \/ In (RVer k r v) (flat_map fst oc)).
 Proof.
-  intros Hok G. pose proof (scan_dinv R V snap oc Hok G) as [Hc Hu Hw Hoc Hs].
+  intros Hok G. destruct (scan_dinv R V snap oc Hok G) as [[Hc Hu Hw Hoc Hs] _].
   split; [exact Hs|]. split; [|split].
   - apply cinv_veq; [|exact Hc]. eapply uniq_sub; eauto.
   - intros k r v Hin. (* the ghost only grows *)
@@ -747,3 +791,28 @@ Proof.
     exfalso. clear -Hin. induction os as [|o os IH]; cbn in Hin; [exact Hin|exact (IH Hin)].
   - apply Hsub.
 Qed.
+
+(* sequential: the relaxed well-formedness survives the pass, whatever fails *)
+Theorem scan_wf R V snap (os : list outcome) :
+  let oc := map (fun o => ([], o)) os in
+  scan_ok R V snap oc -> good (scan R V snap oc) -> wfd V -> wfd (d_store (scan R V snap oc)).
+Proof.
+  cbv zeta. intros Hok G Hw. destruct (scan_dinv R V snap _ Hok G) as [_ H].
+  apply H. split; [exact Hw|]. clear. induction os as [|o os IH]; [reflexivity|exact IH].
+Qed.
+
+(* ---------- membership in a sorted list ---------- *)
+
+Lemma in_insert_by {A} (lt : A -> A -> bool) x l y : In y (insert_by lt x l) <-> y = x \/ In y l.
+Proof.
+  induction l as [|z l IH]; cbn [insert_by].
+  - cbn. intuition congruence.
+  - destruct (lt z x); cbn [In]; [rewrite IH|]; intuition congruence.
+Qed.
+
+Lemma in_sort_by {A} (lt : A -> A -> bool) l y : In y (sort_by lt l) <-> In y l.
+Proof.
+  unfold sort_by. induction l as [|z l IH]; cbn [fold_right]; [reflexivity|].
+  rewrite in_insert_by, IH. cbn [In]. intuition congruence.
+Qed.
+
